@@ -312,6 +312,31 @@ def _grad_broadcast_to(new: List[int], ones: List[bool]) -> bool:
     return broadcast_to_body(new, ones)
 
 
+def broadcast_to_lead_body(new, ones, drop):
+    """x has FEWER dimensions than the target (NumPy aligns shapes at the trailing end): the rule may refuse (today it
+    asserts), but if it answers, the cotangent has x's shape"""
+    old = [(1 if ones[i] else new[i]) for i in range(len(new))][drop:]
+    x = ShArr(old)
+    ans = ShArr(new)
+    with bound():
+        try:
+            r = V.grad_broadcast_to(ans, x, tuple(new))(ShArr(new))
+        except (ShapeError, AssertionError, NotImplementedError):
+            return True  # a loud refusal is allowed
+        except Exception as e:
+            GAPS.append("%s: %s" % (type(e).__name__, e))
+            return True
+    return r.shape == tuple(old)
+
+
+def _grad_broadcast_to_lead(new: List[int], ones: List[bool], drop: int) -> bool:
+    """
+    pre: 2 <= len(new) <= 4 and len(ones) == len(new) and _nonneg(new) and 1 <= drop < len(new)
+    post: _
+    """
+    return broadcast_to_lead_body(new, ones, drop)
+
+
 # ---- np.dot / np.tensordot / np.matmul (rank-dependent contraction logic) ----------------------------------------------------
 
 
